@@ -42,11 +42,18 @@
 #define FR_WORD_OLD(x) ((__CPROVER_old((x)->state) & 1) != 0)
 #define WW(a, b) (FR_WORD_OLD(a) && FR_WORD_OLD(b))
 
+/* identity of the value an operand holds: the numbers themselves on the word path, GMP's (opaque or exact) tags otherwise */
+#define VIDN(x) (FR_WORD(x) ? (t_long)(x)->num : (x)->mpq->_mp_num.g_val)
+#define VIDD(x) (FR_WORD(x) ? (t_long)(x)->den : (x)->mpq->_mp_den.g_val)
+t_long vid_an, vid_ad, vid_bn, vid_bd;
+/* the GMP path computes GMP's <op> of exactly the two operand values (so the result is exact by GMP's contract) */
+#define PROV2(r, op) (!g_gmp_arith || ((r)->mpq->g_op == (op) && (r)->mpq->g_an == vid_an && (r)->mpq->g_ad == vid_ad && (r)->mpq->g_bn == vid_bn && (r)->mpq->g_bd == vid_bd))
+#define PROV1(r, op) (!g_gmp_arith || ((r)->mpq->g_op == (op) && (r)->mpq->g_an == vid_an && (r)->mpq->g_ad == vid_ad))
 /* ghost: inputs captured at entry (read back from the counterexample trace by the replayer) */
-t_word rp_a_num, rp_b_num; t_uword rp_a_den, rp_b_den; t_uchar rp_a_state, rp_b_state;
-#define RP_GHOSTS rp_a_num, rp_b_num, rp_a_den, rp_b_den, rp_a_state, rp_b_state
-#define RP_CAP2(a, b) rp_a_num = (a)->num; rp_a_den = (a)->den; rp_a_state = (a)->state; rp_b_num = (b)->num; rp_b_den = (b)->den; rp_b_state = (b)->state;
-#define RP_CAP1(a)    rp_a_num = (a)->num; rp_a_den = (a)->den; rp_a_state = (a)->state;
+t_word rp_a_num, rp_b_num; t_uword rp_a_den, rp_b_den; t_uchar rp_a_state, rp_b_state; t_bool rp_done;   /* rp_done: only the function under contract captures, not its callees */
+#define RP_GHOSTS rp_done, rp_a_num, rp_b_num, rp_a_den, rp_b_den, rp_a_state, rp_b_state, vid_an, vid_ad, vid_bn, vid_bd
+#define RP_CAP2(a, b) if (!rp_done) { rp_done = 1; rp_a_num = (a)->num; rp_a_den = (a)->den; rp_a_state = (a)->state; rp_b_num = (b)->num; rp_b_den = (b)->den; rp_b_state = (b)->state; vid_an = VIDN(a); vid_ad = VIDD(a); vid_bn = VIDN(b); vid_bd = VIDD(b); }
+#define RP_CAP1(a)    if (!rp_done) { rp_done = 1; rp_a_num = (a)->num; rp_a_den = (a)->den; rp_a_state = (a)->state; vid_an = VIDN(a); vid_ad = VIDD(a); }
 
 /* ---- gcd<uword>, gcd<ulword>: ASSUMED at real width (proved by complete unwinding in the S tier) ----------------
  * plus the one arithmetic lemma the word path of addition/subtraction relies on for the narrowing
@@ -76,7 +83,7 @@ _Thread_local x___gmp_expr_mpz_t_mpz_t g_FastRational__temp;   /* tentative re-d
 /* ---- dst = a (op) b ------------------------------------------------------------------------------------------ */
 #define BINOP_COMMON(extra_req) \
   FR_OPERAND(dst) FR_OPERAND(a) FR_OPERAND(b) \
-  __CPROVER_requires(g_last_gcd32 == 0 && !g_gmp_arith) extra_req \
+  __CPROVER_requires(g_last_gcd32 == 0 && !g_gmp_arith && !rp_done) extra_req \
   __CPROVER_assigns(*dst, FR_CACHE(a), FR_CACHE(b), GHOST_FRAME) \
   __CPROVER_assigns(FR_GMPOBJ(dst); FR_GMPOBJ(a); FR_GMPOBJ(b)) \
   FR_WF_ENS(dst) \
@@ -88,24 +95,24 @@ _Thread_local x___gmp_expr_mpz_t_mpz_t g_FastRational__temp;   /* tentative re-d
 #define FITS_WORD(v) ((v) >= -2147483647l - 1 && (v) <= 2147483647l)
 
 #define OSMT_ENTRY_addition RP_CAP2(a, b)
-#define OSMT_CONTRACT_addition BINOP_COMMON() \
+#define OSMT_CONTRACT_addition __CPROVER_ensures(PROV2(dst, OSMT_OP_ADD)) BINOP_COMMON() \
   __CPROVER_ensures((WW(a, b) && __CPROVER_old(b->num) == 0) ==> (FR_WORD(dst) && dst->num == a->num && dst->den == a->den)) \
   __CPROVER_ensures((WW(a, b) && __CPROVER_old(a->num) == 0) ==> (FR_WORD(dst) && dst->num == b->num && dst->den == b->den)) \
   __CPROVER_ensures((WW(a, b) && a->den == 1 && b->den == 1 && FITS_WORD(L(a->num) + L(b->num))) ==> (FR_WORD(dst) && !g_gmp_arith && dst->den == 1 && L(dst->num) == L(a->num) + L(b->num)))
 
 #define OSMT_ENTRY_subtraction RP_CAP2(a, b)
-#define OSMT_CONTRACT_subtraction BINOP_COMMON() \
+#define OSMT_CONTRACT_subtraction __CPROVER_ensures(PROV2(dst, OSMT_OP_SUB)) BINOP_COMMON() \
   __CPROVER_ensures((WW(a, b) && __CPROVER_old(b->num) == 0) ==> (FR_WORD(dst) && dst->num == a->num && dst->den == a->den)) \
   __CPROVER_ensures((WW(a, b) && __CPROVER_old(a->num) == 0 && b->num != 0 && b->num != (-2147483647 - 1)) ==> (FR_WORD(dst) && dst->num == -b->num && dst->den == b->den)) \
   __CPROVER_ensures((WW(a, b) && a->den == 1 && b->den == 1 && FITS_WORD(L(a->num) - L(b->num))) ==> (FR_WORD(dst) && !g_gmp_arith && dst->den == 1 && L(dst->num) == L(a->num) - L(b->num)))
 
 #define OSMT_ENTRY_multiplication RP_CAP2(a, b)
-#define OSMT_CONTRACT_multiplication BINOP_COMMON() \
+#define OSMT_CONTRACT_multiplication __CPROVER_ensures(PROV2(dst, OSMT_OP_MUL)) BINOP_COMMON() \
   __CPROVER_ensures(((FR_WORD_OLD(a) && __CPROVER_old(a->num) == 0) || (FR_WORD_OLD(b) && __CPROVER_old(b->num) == 0)) ==> (FR_WORD(dst) && dst->num == 0 && dst->den == 1)) \
   __CPROVER_ensures((WW(a, b) && FR_WORD(dst) && !g_gmp_arith) ==> ((dst->num > 0) == ((a->num > 0) == (b->num > 0) && a->num != 0 && b->num != 0) && (dst->num == 0) == (a->num == 0 || b->num == 0)))
 
 #define OSMT_ENTRY_division RP_CAP2(a, b)
-#define OSMT_CONTRACT_division BINOP_COMMON(__CPROVER_requires(FR_NONZERO(b))) \
+#define OSMT_CONTRACT_division __CPROVER_ensures(PROV2(dst, OSMT_OP_DIV)) BINOP_COMMON(__CPROVER_requires(FR_NONZERO(b))) \
   __CPROVER_ensures((FR_WORD_OLD(a) && __CPROVER_old(a->num) == 0) ==> (FR_WORD(dst) && dst->num == 0 && dst->den == 1)) \
   __CPROVER_ensures((WW(a, b) && b->num == 1 && b->den == 1) ==> (FR_WORD(dst) && dst->num == a->num && dst->den == a->den)) \
   __CPROVER_ensures((WW(a, b) && FR_WORD(dst) && !g_gmp_arith && a->num != 0) ==> ((dst->num > 0) == ((a->num > 0) == (b->num > 0)) && dst->num != 0))
@@ -113,7 +120,7 @@ _Thread_local x___gmp_expr_mpz_t_mpz_t g_FastRational__temp;   /* tentative re-d
 /* ---- a (op)= b ----------------------------------------------------------------------------------------------- */
 #define ASSIGNOP_COMMON(extra_req) \
   FR_OPERAND(a) FR_OPERAND(b) \
-  __CPROVER_requires(g_last_gcd32 == 0 && !g_gmp_arith) extra_req \
+  __CPROVER_requires(g_last_gcd32 == 0 && !g_gmp_arith && !rp_done) extra_req \
   __CPROVER_assigns(*a, FR_CACHE(b), GHOST_FRAME) \
   __CPROVER_assigns(FR_GMPOBJ(a); FR_GMPOBJ(b)) \
   FR_WF_ENS(a) \
@@ -122,21 +129,21 @@ _Thread_local x___gmp_expr_mpz_t_mpz_t g_FastRational__temp;   /* tentative re-d
 #define OA(e) __CPROVER_old(e)
 
 #define OSMT_ENTRY_additionAssign RP_CAP2(a, b)
-#define OSMT_CONTRACT_additionAssign ASSIGNOP_COMMON() \
+#define OSMT_CONTRACT_additionAssign __CPROVER_ensures(PROV2(a, OSMT_OP_ADD)) ASSIGNOP_COMMON() \
   __CPROVER_ensures((FR_WORD_OLD(b) && OA(b->num) == 0) ==> (a->state == OA(a->state) && a->num == OA(a->num) && a->den == OA(a->den))) \
   __CPROVER_ensures((WW(a, b) && OA(a->num) == 0 && b->num != 0 && b->den != 1) ==> (FR_WORD(a) && a->num == b->num && a->den == b->den))
 
 #define OSMT_ENTRY_subtractionAssign RP_CAP2(a, b)
-#define OSMT_CONTRACT_subtractionAssign ASSIGNOP_COMMON() \
+#define OSMT_CONTRACT_subtractionAssign __CPROVER_ensures(PROV2(a, OSMT_OP_SUB)) ASSIGNOP_COMMON() \
   __CPROVER_ensures((WW(a, b) && OA(a->den) == 1 && b->den == 1 && FITS_WORD(L(OA(a->num)) - L(b->num))) ==> (FR_WORD(a) && !g_gmp_arith && a->den == 1 && L(a->num) == L(OA(a->num)) - L(b->num)))
 
 #define OSMT_ENTRY_multiplicationAssign RP_CAP2(a, b)
-#define OSMT_CONTRACT_multiplicationAssign ASSIGNOP_COMMON() \
+#define OSMT_CONTRACT_multiplicationAssign __CPROVER_ensures(PROV2(a, OSMT_OP_MUL)) ASSIGNOP_COMMON() \
   __CPROVER_ensures((WW(a, b) && (OA(a->num) == 0 || b->num == 0)) ==> (FR_WORD(a) && a->num == 0 && a->den == 1)) \
   __CPROVER_ensures((WW(a, b) && FR_WORD(a) && !g_gmp_arith) ==> ((a->num > 0) == ((OA(a->num) > 0) == (b->num > 0) && OA(a->num) != 0 && b->num != 0)))
 
 #define OSMT_ENTRY_divisionAssign RP_CAP2(a, b)
-#define OSMT_CONTRACT_divisionAssign ASSIGNOP_COMMON(__CPROVER_requires(FR_NONZERO(b))) \
+#define OSMT_CONTRACT_divisionAssign __CPROVER_ensures(PROV2(a, OSMT_OP_DIV)) ASSIGNOP_COMMON(__CPROVER_requires(FR_NONZERO(b))) \
   __CPROVER_ensures((WW(a, b) && OA(a->num) == 0) ==> (FR_WORD(a) && a->num == 0 && a->den == 1)) \
   __CPROVER_ensures((WW(a, b) && FR_WORD(a) && !g_gmp_arith && OA(a->num) != 0) ==> ((a->num > 0) == ((OA(a->num) > 0) == (b->num > 0)) && a->num != 0))
 
@@ -144,7 +151,7 @@ _Thread_local x___gmp_expr_mpz_t_mpz_t g_FastRational__temp;   /* tentative re-d
 #define RET __CPROVER_return_value
 #define UNARY_VALUE_COMMON(extra_req) \
   FR_OPERAND(self) \
-  __CPROVER_requires(g_last_gcd32 == 0 && !g_gmp_arith) extra_req \
+  __CPROVER_requires(g_last_gcd32 == 0 && !g_gmp_arith && !rp_done) extra_req \
   __CPROVER_assigns(FR_CACHE(self), GHOST_FRAME) \
   __CPROVER_assigns(FR_GMPOBJ(self)) \
   FRV_WF_ENS(RET) \
@@ -189,14 +196,14 @@ _Thread_local x___gmp_expr_mpz_t_mpz_t g_FastRational__temp;   /* tentative re-d
 /* ---- unary in place / queries -------------------------------------------------------------------------------- */
 #define OSMT_ENTRY_FastRational__negate RP_CAP1(self)
 #define OSMT_CONTRACT_FastRational__negate \
-  FR_OPERAND(self) __CPROVER_requires(g_last_gcd32 == 0 && !g_gmp_arith) \
+  FR_OPERAND(self) __CPROVER_requires(g_last_gcd32 == 0 && !g_gmp_arith && !rp_done) \
   __CPROVER_assigns(*self, GHOST_FRAME) __CPROVER_assigns(FR_GMPOBJ(self)) \
   FR_WF_ENS(self) \
   __CPROVER_ensures((FR_WORD_OLD(self) && OA(self->num) != (-2147483647 - 1)) ==> (FR_WORD(self) && self->num == -OA(self->num) && self->den == OA(self->den))) \
   __CPROVER_ensures(FR_SIGN(self) == -(FR_WORD_OLD(self) ? ((OA(self->num) > 0) - (OA(self->num) < 0)) : OA(self->mpq->_mp_num.g_sgn)))
 
 #define QUERY_COMMON \
-  FR_OPERAND(self) __CPROVER_requires(g_last_gcd32 == 0 && !g_gmp_arith) \
+  FR_OPERAND(self) __CPROVER_requires(g_last_gcd32 == 0 && !g_gmp_arith && !rp_done) \
   __CPROVER_assigns(RP_GHOSTS) \
   __CPROVER_ensures(self->state == OA(self->state) && self->num == OA(self->num) && self->den == OA(self->den) && self->mpq == OA(self->mpq))
 #define OSMT_ENTRY_FastRational__sign RP_CAP1(self)
@@ -215,7 +222,7 @@ _Thread_local x___gmp_expr_mpz_t_mpz_t g_FastRational__temp;   /* tentative re-d
 
 /* comparison of two operands; the word path is exact (cross multiplication in 64 bit) */
 #define CMP_COMMON \
-  FR_OPERAND(self) FR_OPERAND(b) __CPROVER_requires(g_last_gcd32 == 0 && !g_gmp_arith) \
+  FR_OPERAND(self) FR_OPERAND(b) __CPROVER_requires(g_last_gcd32 == 0 && !g_gmp_arith && !rp_done) \
   __CPROVER_assigns(FR_CACHE(self), FR_CACHE(b), GHOST_FRAME) __CPROVER_assigns(FR_GMPOBJ(self); FR_GMPOBJ(b)) \
   __CPROVER_ensures(FR_UNCHANGED(self) && FR_UNCHANGED(b))
 #define OSMT_ENTRY_FastRational__compare__FastRational_R RP_CAP2(self, b)
@@ -268,5 +275,114 @@ _Thread_local x___gmp_expr_mpz_t_mpz_t g_FastRational__temp;   /* tentative re-d
   __CPROVER_ensures((x == (-9223372036854775807l - 1l)) ==> (RET == 9223372036854775808ul))
 #define OSMT_CONTRACT_FastRational__compare__lword_lword \
   __CPROVER_assigns() __CPROVER_ensures(RET == ((a > b) - (a < b)))
+
+
+/* ---- binary, result by value: operator+ - * / %, gcd, lcm, fastrat_fdiv_q, divexact ------------------------------ */
+#define BIN_VALUE_COMMON(x, y, extra_req) \
+  FR_OPERAND(x) FR_OPERAND(y) \
+  __CPROVER_requires(g_last_gcd32 == 0 && !g_gmp_arith && !rp_done) extra_req \
+  __CPROVER_assigns(FR_CACHE(x), FR_CACHE(y), GHOST_FRAME) \
+  __CPROVER_assigns(FR_GMPOBJ(x); FR_GMPOBJ(y)) \
+  FRV_WF_ENS(RET) \
+  __CPROVER_ensures(FR_UNCHANGED(x) && FR_UNCHANGED(y))
+#define PROVV(op) (!g_gmp_arith || (RET.mpq->g_op == (op) && RET.mpq->g_an == vid_an && RET.mpq->g_ad == vid_ad && RET.mpq->g_bn == vid_bn && RET.mpq->g_bd == vid_bd))
+#define OSMT_ENTRY_FastRational__op_plus RP_CAP2(self, b)
+#define OSMT_CONTRACT_FastRational__op_plus BIN_VALUE_COMMON(self, b, ) __CPROVER_ensures(PROVV(OSMT_OP_ADD)) \
+  __CPROVER_ensures((WW(self, b) && self->den == 1 && b->den == 1 && FITS_WORD(L(self->num) + L(b->num))) ==> (FR_WORD(&RET) && RET.den == 1 && L(RET.num) == L(self->num) + L(b->num)))
+#define OSMT_ENTRY_FastRational__op_minus__FastRational_R RP_CAP2(self, b)
+#define OSMT_CONTRACT_FastRational__op_minus__FastRational_R BIN_VALUE_COMMON(self, b, ) __CPROVER_ensures(PROVV(OSMT_OP_SUB)) \
+  __CPROVER_ensures((WW(self, b) && self->den == 1 && b->den == 1 && FITS_WORD(L(self->num) - L(b->num))) ==> (FR_WORD(&RET) && RET.den == 1 && L(RET.num) == L(self->num) - L(b->num)))
+#define OSMT_ENTRY_FastRational__op_mul RP_CAP2(self, b)
+#define OSMT_CONTRACT_FastRational__op_mul BIN_VALUE_COMMON(self, b, ) __CPROVER_ensures(PROVV(OSMT_OP_MUL))
+#define OSMT_ENTRY_FastRational__op_div RP_CAP2(self, b)
+#define OSMT_CONTRACT_FastRational__op_div BIN_VALUE_COMMON(self, b, __CPROVER_requires(FR_NONZERO(b))) __CPROVER_ensures(PROVV(OSMT_OP_DIV))
+
+/* integer-valued operands */
+#define FR_INT(x) (FR_WORD(x) ? (x)->den == 1 : ((x)->mpq->_mp_den.g_fl && (x)->mpq->_mp_den.g_val == 1))
+/* the GMP path is GMP's integer <op> of exactly the two numerators (result left in the thread-local scratch integer) */
+#define PROVZ(op, ida, idb) (!g_gmp_arith || (g_FastRational__temp.z.g_zop == (op) && g_FastRational__temp.z.g_za == (ida) && g_FastRational__temp.z.g_zb == (idb)))
+#define OSMT_ENTRY_FastRational__op_mod RP_CAP2(self, d)
+#define OSMT_CONTRACT_FastRational__op_mod BIN_VALUE_COMMON(self, d, __CPROVER_requires(FR_INT(self) && FR_INT(d) && FR_NONZERO(d))) \
+  /* word path: floor remainder, sign of the divisor */ \
+  __CPROVER_ensures((WW(self, d) && d->num > 0) ==> (FR_WORD(&RET) && RET.den == 1 && RET.num >= 0 && RET.num < d->num)) \
+  __CPROVER_ensures((WW(self, d) && d->num < 0) ==> (FR_WORD(&RET) && RET.den == 1 && RET.num <= 0 && RET.num > d->num)) \
+  __CPROVER_ensures((WW(self, d) && self->num == 0) ==> RET.num == 0)
+#define OSMT_ENTRY_fastrat_fdiv_q RP_CAP2(n, d)
+#define OSMT_CONTRACT_fastrat_fdiv_q BIN_VALUE_COMMON(n, d, __CPROVER_requires(FR_INT(n) && FR_INT(d) && FR_NONZERO(d))) \
+  __CPROVER_ensures(PROVZ(OSMT_OP_FDIV, vid_an, vid_bn)) \
+  __CPROVER_ensures((WW(n, d) && !g_gmp_arith) ==> (FR_WORD(&RET) && RET.den == 1)) \
+  __CPROVER_ensures((WW(n, d) && !g_gmp_arith && n->num >= 0 && d->num > 0) ==> (RET.num >= 0 && RET.num <= n->num)) \
+  __CPROVER_ensures((WW(n, d) && !g_gmp_arith && n->num < 0 && d->num > 0) ==> (RET.num < 0)) \
+  __CPROVER_ensures((WW(n, d) && !g_gmp_arith && n->num > 0 && d->num < 0) ==> (RET.num < 0)) \
+  __CPROVER_ensures((WW(n, d) && d->num == 1 && !g_gmp_arith) ==> (FR_WORD(&RET) && RET.num == n->num))
+#define OSMT_ENTRY_divexact RP_CAP2(n, d)
+#define OSMT_CONTRACT_divexact BIN_VALUE_COMMON(n, d, __CPROVER_requires(FR_INT(n) && FR_INT(d) && FR_NONZERO(d))) \
+  __CPROVER_ensures(PROVZ(OSMT_OP_DIVEXACT, vid_an, vid_bn)) \
+  __CPROVER_ensures((WW(n, d) && d->num == 1) ==> (FR_WORD(&RET) && RET.num == n->num && RET.den == 1)) \
+  __CPROVER_ensures((WW(n, d) && FR_WORD(&RET) && !g_gmp_arith && n->num != 0) ==> ((RET.num > 0) == ((n->num > 0) == (d->num > 0)) || RET.num == 0))
+#define OSMT_ENTRY_gcd__FastRational_R_FastRational_R RP_CAP2(a, b)
+#define OSMT_CONTRACT_gcd__FastRational_R_FastRational_R BIN_VALUE_COMMON(a, b, __CPROVER_requires(FR_INT(a) && FR_INT(b))) \
+  __CPROVER_ensures(PROVZ(OSMT_OP_GCD, vid_an, vid_bn)) \
+  __CPROVER_ensures(FRV_SIGN(RET) >= 0) \
+  __CPROVER_ensures((WW(a, b) && a->num == 0 && b->num != (-2147483647 - 1)) ==> (FR_WORD(&RET) && L(RET.num) == (b->num < 0 ? -L(b->num) : L(b->num)) && RET.den == 1))
+#define OSMT_ENTRY_lcm__FastRational_R_FastRational_R RP_CAP2(a, b)
+#define OSMT_CONTRACT_lcm__FastRational_R_FastRational_R BIN_VALUE_COMMON(a, b, __CPROVER_requires(FR_INT(a) && FR_INT(b))) \
+  __CPROVER_ensures((!WW(a, b)) ==> PROVZ(OSMT_OP_LCM, vid_an, vid_bn)) \
+  __CPROVER_ensures(FRV_SIGN(RET) >= 0) \
+  __CPROVER_ensures((WW(a, b) && (a->num == 0 || b->num == 0)) ==> (FR_WORD(&RET) && RET.num == 0 && RET.den == 1))
+#define OSMT_ENTRY_abs RP_CAP1(x)
+#define OSMT_CONTRACT_abs \
+  FR_OPERAND(x) __CPROVER_requires(g_last_gcd32 == 0 && !g_gmp_arith && !rp_done) \
+  __CPROVER_assigns(FR_CACHE(x), GHOST_FRAME) __CPROVER_assigns(FR_GMPOBJ(x)) \
+  FRV_WF_ENS(RET) __CPROVER_ensures(FR_UNCHANGED(x)) \
+  __CPROVER_ensures(FRV_SIGN(RET) == (FR_SIGN(x) < 0 ? -FR_SIGN(x) : FR_SIGN(x))) \
+  __CPROVER_ensures((FR_WORD_OLD(x) && x->num >= 0) ==> (FR_WORD(&RET) && RET.num == x->num && RET.den == x->den))
+#define OSMT_ENTRY_fastrat_round_to_int RP_CAP1(n)
+#define OSMT_CONTRACT_fastrat_round_to_int \
+  FR_OPERAND(n) __CPROVER_requires(g_last_gcd32 == 0 && !g_gmp_arith && !rp_done) \
+  __CPROVER_assigns(FR_CACHE(n), GHOST_FRAME) __CPROVER_assigns(FR_GMPOBJ(n)) \
+  FRV_WF_ENS(RET) __CPROVER_ensures(FR_UNCHANGED(n))
+/* construction from a GMP integer */
+#define OSMT_CONTRACT_FastRational__ctor____mpz_struct_P \
+  __CPROVER_requires(__CPROVER_is_fresh(self, sizeof(*self)) && __CPROVER_is_fresh(z, sizeof(*z)) && MPZ_SET(z) && MPZ_CONS(z)) \
+  __CPROVER_assigns(*self, GHOST_FRAME) \
+  FR_WF_ENS(self) \
+  __CPROVER_ensures(FR_WORD(self) == (z->g_fs != 0)) \
+  __CPROVER_ensures(FR_WORD(self) ==> (L(self->num) == z->g_val && self->den == 1)) \
+  __CPROVER_ensures(!FR_WORD(self) ==> (self->state == 6 && self->mpq->_mp_num.g_val == z->g_val && self->mpq->_mp_den.g_fl && self->mpq->_mp_den.g_val == 1))
+/* move construction / move assignment: ownership of the GMP object changes hands, nothing is copied */
+#define OSMT_CONTRACT_FastRational__ctor__FastRational_RR \
+  __CPROVER_requires(__CPROVER_is_fresh(self, sizeof(*self))) FR_OPERAND(other) \
+  __CPROVER_assigns(*self, *other) \
+  FR_WF_ENS(self) \
+  __CPROVER_ensures(self->state == OA(other->state) && self->num == OA(other->num) && self->den == OA(other->den)) \
+  __CPROVER_ensures(FR_MPQMEM(self) ==> (self->mpq == OA(other->mpq) && other->state == 1)) \
+  __CPROVER_ensures(FR_WORD(other) && !FR_MPQMEM(other))
+#define OSMT_CONTRACT_FastRational__op_assign__FastRational_RR \
+  FR_OPERAND(self) FR_OPERAND(other) \
+  __CPROVER_assigns(*self, *other) \
+  FR_WF_ENS(self) \
+  __CPROVER_ensures(self->state == OA(other->state) && self->num == OA(other->num) && self->den == OA(other->den) && self->mpq == OA(other->mpq)) \
+  __CPROVER_ensures(other->state == OA(self->state) && other->num == OA(self->num) && other->den == OA(self->den) && other->mpq == OA(self->mpq))
+/* private helpers of the representation */
+#define OSMT_CONTRACT_FastRational__try_fit_word \
+  FR_OPERAND_RAW(self) __CPROVER_requires(self->state == 6 && MPQ_SET(self->mpq) && MPQ_CONS(self->mpq)) \
+  __CPROVER_assigns(self->state, self->num, self->den, RP_GHOSTS) \
+  FR_WF_ENS(self) \
+  __CPROVER_ensures(FR_WORD(self) == (MPQ_FITS(self->mpq) != 0)) \
+  __CPROVER_ensures(FR_WORD(self) ==> (self->state == 7 && L(self->num) == self->mpq->_mp_num.g_val && L(self->den) == self->mpq->_mp_den.g_val))
+#define FR_OPERAND_RAW(x) __CPROVER_requires(__CPROVER_is_fresh(x, sizeof(*(x)))) __CPROVER_requires(__CPROVER_is_fresh((x)->mpq, sizeof(__mpq_struct)))
+#define OSMT_CONTRACT_FastRational__ensure_mpq_valid \
+  FR_OPERAND(self) \
+  __CPROVER_assigns(FR_CACHE(self), g_pool_touched, RP_GHOSTS) __CPROVER_assigns(FR_GMPOBJ(self)) \
+  FR_WF_ENS(self) \
+  __CPROVER_ensures(FR_MPQVAL(self) && self->num == OA(self->num) && self->den == OA(self->den) && FR_WORD(self) == FR_WORD_OLD(self)) \
+  __CPROVER_ensures(FR_WORD(self) ==> (self->mpq->_mp_num.g_val == L(self->num) && self->mpq->_mp_den.g_val == L(self->den)))
+#define OSMT_CONTRACT_FastRational__kill_mpq \
+  FR_OPERAND(self) \
+  __CPROVER_assigns(self->state, g_pool_touched) __CPROVER_assigns(FR_GMPOBJ(self)) \
+  __CPROVER_ensures(FR_MPQMEM_OLD(self) ==> (self->state == 1 && !MPQ_INIT(self->mpq))) \
+  __CPROVER_ensures(!FR_MPQMEM_OLD(self) ==> self->state == OA(self->state))
+#define FR_MPQMEM_OLD(x) ((__CPROVER_old((x)->state) & 2) != 0)
 
 #endif
